@@ -19,10 +19,36 @@ def creators(fx, comp=COMP):
             continue
         if comp not in fx.tys(f.locals[1]) or not fx.tys(f.locals[1]).startswith("&"):
             continue
-        news = [(bi, t) for bi, t in f.calls() if (t[1].get("d") or "") == comp + "::new"]
+        # constructors of the compiler: `new`, and functions without a receiver that return one (`with_source_file(path)`)
+        ctors = {q for q, g in fx.fns.items() if not g.derived and not g.closure and g.sig and fx.tys(g.sig[-1]) == comp
+                 and (g.argc == 0 or comp not in fx.tys(g.locals[1]))}
+        news = [(bi, t) for bi, t in f.calls() if (t[1].get("d") or "") == comp + "::new" or t[1].get("d") in ctors]
         if not news:
             continue
         fields = set()
+        # a constructor that is handed something read from a field of self and stores it in the same field of what it builds
+        for bi, t in news:
+            g = fx.fns.get(t[1].get("d"))
+            if g is None or not t[2]:
+                continue
+            gw = set()
+            for bl in g.blocks:
+                for s_ in bl["s"]:
+                    if s_[0] == "a" and s_[1][1]:
+                        for a_, v_, n_ in F.place_fields(s_[1]):
+                            if a_ == comp:
+                                gw.add(n_)
+            for a in t[2]:
+                if a[0] not in ("c", "m"):
+                    continue
+                for l in ancestors(f, a[1][0]):
+                    for (db, si, rv) in f.defs().get(l, []):
+                        if si == "T":
+                            continue
+                        for pl in F.rvalue_places(rv):
+                            for a_, v_, n_ in F.place_fields(pl):
+                                if a_ == comp and n_ in gw and 1 in ancestors(f, pl[0]):
+                                    fields.add(n_)
         for bl in f.blocks:
             if bl["c"]:
                 continue
